@@ -2,7 +2,9 @@
    Statements only; model Eql/Eval.v, Spec Eql/Sat.v.  Unbounded in the shape of the condition, the number of
    variables, domain sizes / contents and the world. *)
 From Coq Require Import List ZArith Bool Arith.
+From Coq Require Import Permutation.
 From Krrood Require Import Base.Sx Eql.Syntax Eql.Sat Eql.Eval Eql.EvalProofs Eql.CountProofs Eql.RunProofs Eql.Show.
+From Krrood Require Import Eql.BagProofs Eql.ShowFrag.
 Import ListNotations.
 Open Scope nat_scope.
 
@@ -26,6 +28,20 @@ Proof. exact eval_exactly_once. Qed.
 Theorem C02_true_total : forall W D c, nnf c = true -> forall b b',
   In (b', false) (eval W D c b) -> binds_all b' (cond_vars c).
 Proof. exact eval_true_total. Qed.
+
+(* whole queries: the rows are a PERMUTATION of the Spec's enumeration of the satisfying assignments - exactly one row
+   per satisfying assignment, never zero, never two - for every query of the fragment over duplicate-free domains *)
+Theorem C02_rows_exactly_once : forall W D, (forall x, NoDup (D x)) -> forall q c,
+  q_cond q = Some c -> nnf c = true ->
+  (forall x, In x (flat_map opnd_vars (q_sels q)) -> In x (cond_vars c)) ->
+  Permutation (run W D q) (answers_exec W D q).
+Proof. exact run_perm. Qed.
+
+(* the decidable flag the correspondence check computes for every generated case is covered by that theorem *)
+Theorem C02_fragment_flag : forall c, case_in_F02 c = true ->
+  Permutation (run (mk_world (e_world c)) (mk_domains (e_doms c)) (e_query c))
+              (answers_exec (mk_world (e_world c)) (mk_domains (e_doms c)) (e_query c)).
+Proof. exact case_in_F02_perm. Qed.
 
 Theorem C02_fragment_is_union_free : forall c, nnf c = true -> ufree c = true.
 Proof. exact nnf_ufree. Qed.
@@ -62,13 +78,15 @@ Definition w_c02 : ecase :=
                                                  (mk_not (CCmp OpEq (OVar 0) (OVar 1))))
                                           (CCmp OpGe (OAttr (OVar 1) 1) (OLit (VI 0)))) |} |}.
 Example C02_nonvacuous :
-  match q_cond (e_query w_c02) with Some c => nnf c | None => false end = true /\
+  case_in_F02 w_c02 = true /\
   model_differs_as_bag w_c02 = false /\ spec_rows w_c02 <> SL [].
 Proof. split; [vm_compute; reflexivity|]. split; [vm_compute; reflexivity|]. vm_compute. discriminate. Qed.
 
 Print Assumptions C02_partition.
 Print Assumptions C02_exactly_once.
 Print Assumptions C02_true_total.
+Print Assumptions C02_rows_exactly_once.
+Print Assumptions C02_fragment_flag.
 Print Assumptions C02_fragment_is_union_free.
 Print Assumptions C02_or_choice.
 Print Assumptions C02_refuted_dupdom.
